@@ -94,6 +94,10 @@ func (cr *chunkedReader) Read(b []uint8) (n int, err error) {
 			}
 		}
 	}
+	if cr.err == io.EOF {
+		// the stream ended inside a chunk (before its data and CRLF were complete)
+		cr.err = io.ErrUnexpectedEOF
+	}
 	return n, cr.err
 }
 
@@ -179,8 +183,10 @@ func (cw *chunkedWriter) Close() error {
 }
 
 func parseHexUint(v []byte) (n uint64, err error) {
-	for _, b := range v {
-		n <<= 4
+	if len(v) == 0 {
+		return 0, errors.New("empty hex number for chunk length")
+	}
+	for i, b := range v {
 		switch {
 		case '0' <= b && b <= '9':
 			b -= '0'
@@ -191,6 +197,10 @@ func parseHexUint(v []byte) (n uint64, err error) {
 		default:
 			return 0, errors.New("invalid byte in chunk length")
 		}
+		if i == 16 {
+			return 0, errors.New("http chunk length too large")
+		}
+		n <<= 4
 		n |= uint64(b)
 	}
 	return
